@@ -49,6 +49,7 @@ type world struct {
 	onchainRev    *transaction.Transaction // by p, Conflicts(an on-chain tx)
 	over1, over2  *transaction.Transaction // by p, each affordable, together above the balance
 	under         *transaction.Transaction // by p, fees above the balance
+	overLimit     *transaction.Transaction // by p, affordable, system fee above MaxBlockSystemFee
 	extraOK       *transaction.Transaction // by q, plain valid transfer not in B
 	setupV        *transaction.Transaction // named by the Conflicts attribute of the on-chain setupT0 (same signer p); never sent
 	setupT0       util.Uint256
@@ -214,10 +215,15 @@ func (w *world) addCrafted(txs []*transaction.Transaction, timeD uint32, nonce u
 }
 
 func buildWorld(c Case) (*world, error) {
-	b, err := ck.NewBuilder(c.Chain)
+	bs, err := bootSnapshot(c.Chain, ck.NodeCfg{Backend: "mem"})
 	if err != nil {
 		return nil, fmt.Errorf("builder: %v", err)
 	}
+	bn, err := ck.NewNodeOnStore(c.Chain, ck.NodeCfg{Backend: "mem"}, bs.clone())
+	if err != nil {
+		return nil, fmt.Errorf("builder: %v", err)
+	}
+	b := &ck.Builder{N: bn, Deployed: append([]ck.Deployed{}, bs.deployed...), TxHashes: append([]util.Uint256{}, bs.txHashes...), Rejected: map[string]int{}}
 	w := &world{c: c, b: b, srih: c.Chain.SRIH, twins: map[int]*twinSnap{}}
 	ok := false
 	defer func() {
@@ -225,11 +231,7 @@ func buildWorld(c Case) (*world, error) {
 			b.Close()
 		}
 	}()
-	boot, err := b.Bootstrap()
-	if err != nil {
-		return nil, fmt.Errorf("bootstrap: %v", err)
-	}
-	w.hist = append(w.hist, boot...)
+	w.hist = append(w.hist, bs.boot...)
 	for i, spec := range c.Blocks {
 		raw, _, err := b.BuildBlock(spec)
 		if err != nil {
@@ -315,6 +317,9 @@ func buildWorld(c Case) (*world, error) {
 	w.over2 = w.craft(w.p, w.q.Hash, 0xC0610009, N+1, nil, big6, -1, 0)
 	w.under = w.craft(w.p, w.q.Hash, 0xC061000A, N+1, nil, w.balP+1, -1, 0)
 	w.extraOK = w.craft(w.q, w.p.Hash, 0xC061000B, N+1, nil, -1, -1, 0)
+	if lim := bc.GetConfig().MaxBlockSystemFee; w.balP > lim+100_0000_0000 {
+		w.overLimit = w.craft(w.p, w.q.Hash, 0xC061000C, N+1, nil, lim+1, -1, 0)
+	}
 	w.okAtN = map[util.Uint256]bool{}
 	for _, tx := range []*transaction.Transaction{w.cV, w.cTlow, w.cThigh, w.cTother, w.extraOK} {
 		w.okAtN[tx.Hash()] = w.validAlone(tx)
